@@ -53,7 +53,12 @@ Schema == [
   UVAxis |-> [x |-> S, y |-> S, z |-> S, offset |-> S, scale |-> S],
   VisGroup |-> [vmf |-> Fld("ctx", "", "", FALSE), name |-> S, id |-> Fld("id", "", "", FALSE),
                 color |-> Fld("vec", "", "", FALSE), child_groups |-> Fld("objs", "VisGroup", "kids", FALSE)],
-  Keyvalues |-> [_folded_name |-> S, _real_name |-> S, _value |-> Fld("kv", "Keyvalues", "", FALSE), line_num |-> S]
+  Keyvalues |-> [_folded_name |-> S, _real_name |-> S, _value |-> Fld("kv", "Keyvalues", "", FALSE), line_num |-> S],
+  EntityGroup |-> [vmf |-> Fld("ctx", "", "", FALSE), id |-> Fld("id", "", "", FALSE), shown |-> S, auto_shown |-> S,
+                   color |-> Fld("vec", "", "", FALSE)],
+  Camera |-> [pos |-> Fld("vec", "", "", FALSE), target |-> Fld("vec", "", "", FALSE), map |-> Fld("ctx", "", "", FALSE)],
+  Cordon |-> [map |-> Fld("ctx", "", "", FALSE), name |-> S, bounds_min |-> Fld("vec", "", "", FALSE),
+              bounds_max |-> Fld("vec", "", "", FALSE), active |-> S]
 ]
 Classes == DOMAIN Schema
 Fields(c) == DOMAIN Schema[c]
@@ -96,7 +101,8 @@ FieldSlots(c, o, f, pre, d) ==
 Slots(c, o, pre, d) == UNION {FieldSlots(c, o, f, pre, d) : f \in Fields(c)}
 
 \* every slot of a root object (the root itself is the cell <<"$">>)
-Depth == [Entity |-> 3, Solid |-> 2, Side |-> 1, Output |-> 0, VisGroup |-> 2, Keyvalues |-> 2]
+Depth == [Entity |-> 3, Solid |-> 2, Side |-> 1, Output |-> 0, VisGroup |-> 2, Keyvalues |-> 2,
+          EntityGroup |-> 0, Camera |-> 0, Cordon |-> 0, UVAxis |-> 0, EntityFixup |-> 1]
 ObjSlots(c, o) == {[p |-> <<"$">>, k |-> "obj", c |-> c]} \cup Slots(c, o, <<"$">>, Depth[c])
 MutOf(SL) == {s \in SL : s.k \in CellKinds}
 IdOf(SL) == {s \in SL : s.k = "id"}
